@@ -9,10 +9,12 @@ import GoDcp.Driver.Life
 import GoDcp.Driver.Wire
 import GoDcp.Driver.Membership
 import GoDcp.Driver.MinSeqNo
+import GoDcp.Driver.SrcFacts
+import GoDcp.Driver.MembershipPause
 /-! registry of all stateless handlers (one list per slice) -/
 namespace GoDcp.Driver
 
 def allHandlers : List (String × (List String → Option String → Option Out)) :=
-  pureHandlers ++ versionHandlers ++ rollbackHandlers ++ healthHandlers ++ keysHandlers ++ asyncOpHandlers ++ configHandlers ++ lifeHandlers ++ wireHandlers ++ membershipHandlers ++ minSeqNoHandlers
+  pureHandlers ++ versionHandlers ++ rollbackHandlers ++ healthHandlers ++ keysHandlers ++ asyncOpHandlers ++ configHandlers ++ lifeHandlers ++ wireHandlers ++ membershipHandlers ++ minSeqNoHandlers ++ srcFactHandlers ++ membershipPauseHandlers
 
 end GoDcp.Driver
